@@ -38,6 +38,7 @@ def run(chk):
     d2_kmesh(chk, repo, "mesh.Mesh.fftn", "self.n[i]", True)
     d2_kmesh(chk, repo, "mesh.Mesh.ifftn", "S[i]", False)
     d3_names(chk, repo)
+    d3b_fftn_conditions(chk, repo)
     d4_inverse_mesh(chk, repo)
     d5_metadata(chk, repo)
     cm.no_dtype_narrowing(chk, repo, "C11", "C11.D5", ["field.Field._fftn"],
@@ -100,7 +101,10 @@ def d2_kmesh(chk, repo, q, count_txt, forward):
     else:
         ret, a = news[0]
     rg = decode_new(repo, v.ctx, a.get("region")) if a.get("region") is not None else None
-    chk.require(rg is not None, f"{q}: region construction vanished")
+    if rg is None:
+        chk.ob(f"{q}::mesh-built-on-the-k-region", False, "C11.D2",
+               "the returned mesh is not constructed on a Region built in this function (region= missing)", v.f, ret)
+        return
     role = {}
     for st in v.body:
         if isinstance(st, ast.Assign) and isinstance(st.targets[0], ast.Name) and isinstance(st.value, ast.List) and not st.value.elts:
@@ -277,6 +281,46 @@ def d3_names(chk, repo):
            "the new mapping must be keyed by the NEW label of the same component (zip(old labels, new labels))", f.f)
 
 
+def d3b_fftn_conditions(chk, repo):
+    from ..lib import cond_equiv, cond_implies, path_term
+    f = FV(repo, "field.Field._fftn")
+    has = f.spec("self.vdims is not None")
+    inv = f.spec("ifftn")
+    fwd_labels = f.spec("[f'ft_{vdim}' for vdim in self.vdims]")
+    for st in f.stmts():
+        if not isinstance(st, ast.Assign):
+            continue
+        t = f.term(st.value, at=st)
+        pt = path_term(f, st)
+        if isinstance(st.targets[0], ast.Name):
+            if isinstance(st.value, ast.Constant) and st.value.value is None:
+                chk.ob("field.Field._fftn::none-iff-unlabelled",
+                       cond_equiv(f, pt, f.ev._not(has)), "C11.D3",
+                       f"`{f.src(st)}` under {f.show(pt)}; expected exactly for fields without labels", f.f, st)
+            elif f.eq(t, fwd_labels):
+                chk.ob("field.Field._fftn::prefix-added-iff-forward", cond_equiv(f, pt, f.ev._bool("and", [has, f.ev._not(inv)])),
+                       "C11.D3", f"'ft_' is added under {f.show(pt)}; expected: labelled field, forward transform", f.f, st)
+            elif (f.ctx.head_of(t) or ("",))[0] == "seqcomp" and _strip_rule(f, f.ctx.args_of(t)[0]):
+                chk.ob("field.Field._fftn::prefix-stripped-iff-inverse", cond_equiv(f, pt, f.ev._bool("and", [has, inv])),
+                       "C11.D3", f"'ft_' is stripped under {f.show(pt)}; expected: labelled field, inverse transform", f.f, st)
+        elif isinstance(st.targets[0], ast.Subscript):
+            keys = []
+            for aid in f.ctx.all_atoms(t) | ({t.single_atom()} if t.single_atom() is not None else set()):
+                hd, ar = f.ctx.atoms[aid]
+                if hd == ("sub",) and f.eq(ar[0], f.spec("self.vdim_mapping")):
+                    keys.append(ar[1])
+            if not keys:
+                continue
+            member = f.spec("k in self.vdim_mapping", env={"k": keys[0]})
+            is_inv = _strip_rule(f, t) is not None
+            want_dir = inv if is_inv else f.ev._not(inv)
+            ok = cond_implies(f, pt, member) and cond_implies(f, pt, want_dir) and cond_implies(f, pt, has) and \
+                cond_implies(f, f.ev._bool("and", [has, member, want_dir]), pt)
+            chk.ob(f"field.Field._fftn::mapping-entry-iff-mapped-{'inverse' if is_inv else 'forward'}", ok, "C11.D3",
+                   f"`{f.src(st)[:70]}` under {f.show(pt)[:160]}; expected: labelled field, the component has a mapping entry, "
+                   f"{'inverse' if is_inv else 'forward'} transform", f.f, st)
+
+
 def d4_inverse_mesh(chk, repo):
     chk.rule("C11.D4", "inverse mesh: explicit shapes are validated (length, leading entries, last entry // 2 + 1 == n[-1], type); the "
                        "default real shape is (n[-1] - 1) * 2; the result is centred at the origin")
@@ -309,8 +353,17 @@ def d4_inverse_mesh(chk, repo):
                 cen = v.ctx.mk(("prop", "center"), (recv,))
                 okt = "inplace" in c[2] and is_const(v.ctx, c[2]["inplace"], True) and len(c[1]) == 2
                 # argument is -mesh.region.center of the same mesh
-                arg = r_neg(c[1][1])
-                okt = okt and (v.ctx.heads_in(arg) and any(h[0] in ("attr", "prop") and h[1] in ("_pmin", "pmin", "center") for h in v.ctx.heads_in(arg)))
+                okt = okt and v.eq(c[1][1], v.spec("-m.region.center", env={"m": recv}))
+    from ..lib import cond_equiv, cond_implies, path_term
+    for st in v.stmts():
+        if isinstance(st, ast.Assign) and isinstance(st.targets[0], ast.Name) and v.eq(v.term(st.value, at=st), v.spec("self.n.copy()")):
+            chk.ob("mesh.Mesh.ifftn::default-shape-iff-none-given", cond_equiv(v, path_term(v, st), v.spec("shape is None")), "C11.D4",
+                   f"the default shape is chosen under {v.show(path_term(v, st))}; expected: no shape was given", v.f, st)
+    rs = v.ctor_sites(REGION)
+    if rs:
+        tf = rs[0].args.get("tolerance_factor")
+        chk.ob("mesh.Mesh.ifftn::tolerance", tf is not None and v.eq(tf, v.spec("self.region.tolerance_factor")), "C11.D4",
+               "the tolerance factor of the k-space region must be carried back", v.f, rs[0].call)
     chk.ob("mesh.Mesh.ifftn::centred-at-origin", okt, "C11.D4",
            "the real-space mesh must be translated by minus its centre (in place) before it is returned", v.f)
 
